@@ -161,6 +161,7 @@ func runC12(c *Ctx) {
 		c12CloseHammer(c, i)
 	}
 	c12FailedConcurrentWrites(c)
+	c12SinkFails(c, dir)
 }
 
 // (e) "advance it by the bytes transferred" when a concurrent Write is refused in several places at once: Write of 7 chunks at
